@@ -46,6 +46,7 @@ type rop struct {
 	With  bool `json:"with"`  // the terminal condition is reported together with the last data
 	// WriteTo: the scripted writer.
 	Budget int `json:"budget"` // bytes accepted before failing (-1: everything)
+	WChunk int `json:"wchunk"` // most bytes accepted per Write call, the rest refused with a NIL error (0: no limit)
 }
 
 func (o rop) String() string {
@@ -71,6 +72,9 @@ func (o rop) String() string {
 		}
 		return fmt.Sprintf("ReadNFrom(n=%d,reader{avail=%d,chunk=%d,%s %s data})", o.N, o.Avail, o.Chunk, t, w)
 	case opWriteTo:
+		if o.WChunk > 0 {
+			return fmt.Sprintf("WriteTo(writer{accepts=%d,at most %d per call without error})", o.Budget, o.WChunk)
+		}
 		return fmt.Sprintf("WriteTo(writer{accepts=%d})", o.Budget)
 	}
 	return "?"
@@ -118,6 +122,7 @@ func (s *scriptReader) Read(p []byte) (int, error) {
 
 type scriptWriter struct {
 	budget int // -1 unlimited
+	chunk  int // per-call limit; hitting only this limit is reported with a nil error
 	got    []byte
 	calls  int
 }
@@ -128,14 +133,18 @@ func (s *scriptWriter) Write(p []byte) (int, error) {
 		return 0, errRunaway
 	}
 	n := len(p)
-	if s.budget >= 0 && n > s.budget {
-		n = s.budget
+	if s.chunk > 0 && n > s.chunk {
+		n = s.chunk
+	}
+	exhausted := false
+	if s.budget >= 0 && n >= s.budget && len(p) > s.budget {
+		n, exhausted = s.budget, true
 	}
 	s.got = append(s.got, p[:n]...)
 	if s.budget >= 0 {
 		s.budget -= n
 	}
-	if n < len(p) {
+	if exhausted {
 		return n, errScriptWrite
 	}
 	return n, nil
@@ -361,7 +370,7 @@ func step(b *ring.Buffer, f *fifo, o rop, src *bytesrc, ar *arena) (res stepResu
 		}
 	case opWriteTo:
 		wr := &ar.wr
-		wr.budget, wr.got, wr.calls = o.Budget, wr.got[:0], 0
+		wr.budget, wr.chunk, wr.got, wr.calls = o.Budget, o.WChunk, wr.got[:0], 0
 		var n64 int64
 		n64, gotErr = b.WriteTo(wr)
 		gotN = int(n64)
@@ -490,20 +499,21 @@ func fullAlphabet() []rop {
 	a = append(a, rop{Kind: opReadByte}, rop{Kind: opReset})
 	a = append(a,
 		rop{Kind: opReadNFrom, N: 0, Avail: -1},
-		rop{Kind: opReadNFrom, N: 1, Avail: -1},
 		rop{Kind: opReadNFrom, N: 3, Avail: -1},
 		rop{Kind: opReadNFrom, N: 3, Avail: -1, Chunk: 1},              // short reads
 		rop{Kind: opReadNFrom, N: 2, Avail: 2, With: true},             // EOF together with the last data
 		rop{Kind: opReadNFrom, N: 3, Avail: 1},                         // EOF on the following call
 		rop{Kind: opReadNFrom, N: 2, Avail: 2, With: true, Fail: true}, // error together with the last data
+		rop{Kind: opReadNFrom, N: 3, Avail: 2, With: true, Fail: true}, // n > 0 together with an error, request incomplete
 		rop{Kind: opReadNFrom, N: 3, Avail: 1, Fail: true},             // error on the following call
 		rop{Kind: opReadNFrom, N: 1, Avail: 0},                         // nothing but EOF
 	)
 	a = append(a,
 		rop{Kind: opWriteTo, Budget: -1},
-		rop{Kind: opWriteTo, Budget: 0}, // fails outright
-		rop{Kind: opWriteTo, Budget: 1}, // short write with error
-		rop{Kind: opWriteTo, Budget: 2},
+		rop{Kind: opWriteTo, Budget: 0},             // fails outright
+		rop{Kind: opWriteTo, Budget: 1},             // short write with error
+		rop{Kind: opWriteTo, Budget: -1, WChunk: 1}, // accepts one byte per call, nil error
+		rop{Kind: opWriteTo, Budget: -1, WChunk: 2}, // accepts two bytes per call, nil error
 	)
 	return a
 }
@@ -515,7 +525,7 @@ func coreAlphabet() []rop {
 		{Kind: opReadNFrom, N: 3, Avail: -1, Chunk: 1},
 		{Kind: opReadNFrom, N: 2, Avail: 2, With: true},
 		{Kind: opReadNFrom, N: 3, Avail: 1, Fail: true},
-		{Kind: opWriteTo, Budget: -1},
+		{Kind: opWriteTo, Budget: -1, WChunk: 1},
 		{Kind: opWriteTo, Budget: 1},
 	}
 }
@@ -827,6 +837,12 @@ func randomOp(rng *rand.Rand, capacity, used int) rop {
 		return o
 	}
 	o := rop{Kind: opWriteTo, Budget: -1}
+	if rng.Intn(2) == 0 {
+		o.WChunk = []int{1, 2, 7, 1000}[rng.Intn(4)]
+		if o.WChunk < 7 && used > 8192 {
+			o.WChunk = 509
+		}
+	}
 	switch rng.Intn(4) {
 	case 0:
 		o.Budget = rng.Intn(used + 1)
@@ -887,6 +903,9 @@ func (st *c26State) randomSequence(idx int, rng *rand.Rand, ops int) {
 			}
 			o2 := o
 			o2.N, o2.Avail, o2.Budget = 0, 0, 0
+			if o2.WChunk > 0 {
+				o2.WChunk = 1
+			}
 			local[fmt.Sprintf("rnd|%s|%s|%s|%v", capClass, full, o2, errName(nil))] = struct{}{}
 		}
 	}
@@ -966,6 +985,6 @@ func c26() {
 	r.Note("alphabet", names)
 	r.Sample(map[string]any{"capacity": 2, "sequence": []string{"Write(2)", "ReadByte", "ReadNFrom(n=3,reader{avail=-1,chunk=1,EOF after data})", "WriteTo(writer{accepts=1})", "Read(3)"}, "checked": "n, err, Used, Free, Size after every operation and a drained copy"})
 	r.Sample(map[string]any{"capacity": 65548, "random": "10000 operations with sizes around 0, 1, what fits, one more than fits, capacity; readers with chunk 1/7/1000, EOF or error with or after the data; writers accepting a prefix"})
-	r.Assume("ReadNFrom and WriteTo are exercised with scripted readers/writers that return at least one byte per call while they have data and report their terminal condition either together with the last data or on the following call")
+	r.Assume("ReadNFrom and WriteTo are exercised with scripted readers/writers that move at least one byte per call while they can; readers report EOF or an error either together with the last data (n > 0 and err != nil on the same call, with the request complete or not) or on the following call; writers accept everything, a prefix and then fail (short write with error, or outright failure), or at most 1/2 (random part: 1/2/7/509/1000) bytes per call with a NIL error, for which the model is: everything is drained in FIFO order")
 	r.Finish(c26Rule, 200)
 }
